@@ -137,7 +137,9 @@ func (e *Exec) appendSlice(st *State, fr *Frame, s *SliceV, telem types.Type, sr
 			s1.Assume(fits)
 		}
 		if !s1.dead {
-			e.frameCheck(s1, fr, Loc{Key: elemKey(s.Elem), Idx: []*Term{s.Arr}}, pos)
+			// growing in place writes only the spare capacity beyond len(s): not frame-checked (unobservable
+			// except through append on an alias; listed as an assumption)
+			e.note("append in place writes spare capacity beyond len(): exempt from frame (assigns) checks")
 			for _, c := range components(s.Elem) {
 				old := s1.arrayOf(s.Elem, c, s.Arr)
 				s1.setArrayOf(s.Elem, c, s.Arr, ArrayCopy(old, BVAdd(s.Off, s.Len), src(c), toff, tlen))
@@ -208,7 +210,7 @@ func (e *Exec) callFunction(st *State, fr *Frame, fn *ssa.Function, args []Value
 	}
 	// contract?
 	if sp := e.specs.ForFn(fn); sp != nil && e.specMode == 0 {
-		if sp.Trusted || (fnName(fn) != e.curFn && sp.hasContract() && !sp.Inline) {
+		if sp.Trusted || (fnName(fn) != e.curFn && sp.hasContract() && !sp.Inline && e.inlineAll == 0) {
 			return e.callContract(st, fr, sp, fn, args, pos)
 		}
 	}
@@ -430,6 +432,8 @@ func (e *Exec) primitive(st *State, fr *Frame, fn *ssa.Function, args []Value, p
 	case "prim_eqbytes":
 		a, b := args[0].(*SliceV), args[1].(*SliceV)
 		return one(st, e.sliceEq(st, a, b)), true
+	case "prim_forall":
+		return one(st, e.primForall(st, fr, args[0].(*Term), args[1].(*FuncV))), true
 	case "prim_fresh": // the slice's backing array was allocated during the call
 		a := args[0].(*SliceV)
 		return one(st, Or(Eq(a.Cap, BVConst(0, 64)), IntLe(fr.entryTopOr(e), a.Arr))), true
@@ -438,6 +442,101 @@ func (e *Exec) primitive(st *State, fr *Frame, fn *ssa.Function, args []Value, p
 		return outs, true
 	}
 	panic(unsupported("unknown primitive " + n))
+}
+
+// primForall: forall 0 <= i < n: f(i), with f a closure evaluated symbolically on a bound variable.
+func (e *Exec) primForall(st *State, fr *Frame, n *Term, f *FuncV) *Term {
+	if f.Fn == nil {
+		panic(unsupported("prim_forall needs a function literal"))
+	}
+	i := BoundVar("q", BV(64))
+	s2 := st.Clone()
+	np, nf := len(s2.pc), len(s2.facts)
+	saved := e.specDefs
+	e.specDefs = nil
+	e.specMode++
+	savedBase := e.specBase
+	e.specBase = np
+	outs := e.callFunction(s2, &Frame{depth: fr.depth + 1}, f.Fn.(*ssa.Function), []Value{i}, f.Bind, token.NoPos)
+	e.specBase = savedBase
+	e.specMode--
+	defs := e.specDefs
+	e.specDefs = saved
+	var alts, facts []*Term
+	for _, o := range outs {
+		r := o.results[0].(*Term)
+		alts = append(alts, And(And(o.st.pc[np:]...), r))
+		for _, ft := range o.st.facts[nf:] {
+			if ft.hasBound {
+				facts = append(facts, ft)
+			} else {
+				st.AssumeFact(ft)
+			}
+		}
+	}
+	R := Or(alts...)
+	D := And(defs...)
+	rng := And(BVSle(BVConst(0, 64), i), BVSlt(i, n))
+	pats := selectPatterns(R, i)
+	if len(facts) > 0 {
+		// type invariants of the values read inside the body hold for every index: a universally valid fact
+		st.AssumeFact(Forall([]*Term{i}, And(facts...), pats...))
+	}
+	if e.specAssert {
+		// proving the clause: every instance must be well defined. (When the clause is assumed, the per-index
+		// guard D => R below already makes undefined instances carry no information.)
+		e.specDefs = append(e.specDefs, Forall([]*Term{i}, Implies(rng, D), pats...))
+	}
+	return Forall([]*Term{i}, Implies(rng, Implies(D, R)), pats...)
+}
+
+// selectPatterns finds a select term whose index is exactly the bound variable (usable as a trigger).
+func selectPatterns(t *Term, b *Term) []*Term {
+	seen := map[int]bool{}
+	var best *Term
+	var walk func(t *Term)
+	walk = func(t *Term) {
+		if seen[t.ID] || !t.hasBound || best != nil {
+			return
+		}
+		seen[t.ID] = true
+		if t.Op == "select" && simplePattern(t, b) {
+			best = t
+			return
+		}
+		for _, a := range t.Args {
+			walk(a)
+		}
+	}
+	walk(t)
+	if best != nil {
+		return []*Term{best}
+	}
+	return nil
+}
+
+func simplePattern(t, b *Term) bool {
+	ok := true
+	hasB := false
+	var walk func(t *Term)
+	walk = func(t *Term) {
+		switch t.Op {
+		case "select", "var", "bvconst", "intconst", "bvadd", "ref":
+		case "bound":
+			if t == b {
+				hasB = true
+			} else {
+				ok = false
+			}
+		default:
+			ok = false
+		}
+		for _, a := range t.Args {
+			walk(a)
+		}
+	}
+	walk(t)
+	return ok && hasB
 }
 
 func (fr *Frame) entryTopOr(e *Exec) *Term {
@@ -520,20 +619,24 @@ func putBE(e *Exec, st *State, fr *Frame, s *SliceV, v *Term, n int, pos token.P
 
 func init() {
 	models = map[string]model{
-		"fmt.Sprintf":  pureOpaque("fmt.Sprintf"),
-		"fmt.Sprint":   pureOpaque("fmt.Sprint"),
-		"fmt.Sprintln": pureOpaque("fmt.Sprintln"),
-		"strconv.Itoa": pureOpaque("strconv.Itoa"),
-		"strconv.FormatInt": pureOpaque("strconv.FormatInt"),
-		"strings.Join": pureOpaque("strings.Join"),
+		"fmt.Sprintf":              pureOpaque("fmt.Sprintf"),
+		"fmt.Sprint":               pureOpaque("fmt.Sprint"),
+		"fmt.Sprintln":             pureOpaque("fmt.Sprintln"),
+		"strconv.Itoa":             pureOpaque("strconv.Itoa"),
+		"strconv.FormatInt":        pureOpaque("strconv.FormatInt"),
+		"strings.Join":             pureOpaque("strings.Join"),
 		"unicode/utf8.ValidString": pureOpaque("utf8.ValidString"),
-		"os.Getpid":    pureOpaque("os.Getpid"),
+		"os.Getpid":                pureOpaque("os.Getpid"),
 		"github.com/ossrs/go-oryx-lib/errors.callers": pureOpaque("errors.callers"),
 		"bytes.Equal": func(e *Exec, st *State, fr *Frame, fn *ssa.Function, args []Value, pos token.Pos) []Outcome {
 			return one(st, e.sliceEq(st, args[0].(*SliceV), args[1].(*SliceV)))
 		},
-		"math.Float64bits":     func(e *Exec, st *State, fr *Frame, fn *ssa.Function, args []Value, pos token.Pos) []Outcome { return one(st, args[0]) },
-		"math.Float64frombits": func(e *Exec, st *State, fr *Frame, fn *ssa.Function, args []Value, pos token.Pos) []Outcome { return one(st, args[0]) },
+		"math.Float64bits": func(e *Exec, st *State, fr *Frame, fn *ssa.Function, args []Value, pos token.Pos) []Outcome {
+			return one(st, args[0])
+		},
+		"math.Float64frombits": func(e *Exec, st *State, fr *Frame, fn *ssa.Function, args []Value, pos token.Pos) []Outcome {
+			return one(st, args[0])
+		},
 		"errors.New": func(e *Exec, st *State, fr *Frame, fn *ssa.Function, args []Value, pos token.Pos) []Outcome {
 			// a fresh error value of the library's private type; identity is what matters
 			r := st.NewRef()
